@@ -96,6 +96,38 @@ impl SubscriptionName {
 }
 }
 
+
+pub mod project {
+    use super::*;
+    broadcast use {str_ax::pat_char_ascii, str_ax::pat_slash, str_ax::pat_str, str_ax::len_bound};
+//@include prelude/status.rs
+//@include prelude/string_conv.rs
+//@hoisted src/api/parser.rs parse_project_id::parse ensures.PROJECT_PREFIX_LEN=9 proof.PROJECT_PREFIX_LEN=lit_ax::lit_bytes();lits::lits_shape()
+pub mod lit_ax {
+    use super::*;
+    // TRUSTED (A-STR): byte value of the literal constant
+    pub(super) axiom fn lit_bytes()
+        ensures PROJECT_PREFIX.spec_bytes() == pfx();
+}
+/// C17: `projects/{id}`: accepted exactly when the string starts with "projects/"; the id is the remaining text
+//@fn src/api/parser.rs parse_project_id::parse tags=C17 name=parse
+//@ ret r
+//@ ensures[C17] r.is_some() <==> is_prefix(pfx(), raw_value.spec_bytes())
+//@ # the id is the text after the prefix (stated over its UTF-8 bytes)
+//@ ensures[C17] r.is_some() ==> vstd::utf8::encode_utf8(r.unwrap()@) == raw_value.spec_bytes().subrange(9, raw_value.spec_bytes().len() as int)
+//@ proof-start { lit_ax::lit_bytes(); lits::lits_shape(); if is_prefix(pfx(), raw_value.spec_bytes()) { str_ax::ascii_boundaries(raw_value, 8); str_ax::end_boundaries(raw_value); } }
+//@end
+//@fn src/api/parser.rs parse_project_id tags=C17 hoist-fns=1 canary=start
+//@ ret r
+//@ # C17: `projects/{id}` is accepted exactly when it starts with "projects/", anything else is INVALID_ARGUMENT
+//@ ensures[C17] r.is_ok() <==> is_prefix(pfx(), raw_value.spec_bytes())
+//@ ensures[C17] r.is_err() ==> err_code(r) == Some(Code::InvalidArgument)
+//@ ensures[C17] r.is_ok() ==> vstd::utf8::encode_utf8(r.unwrap()@) == raw_value.spec_bytes().subrange(9, raw_value.spec_bytes().len() as int)
+//@ closure 1 ret e: Status
+//@ closure 1 ensures e.code == Code::InvalidArgument
+//@end
+}
+
 #[verifier::opaque]
 /// C18 grammar: s = "projects/" p mid rest, '/' not in p, p and the (slash-trimmed) id non-empty
 pub open spec fn accepted_as(s: Seq<u8>, mid: Seq<u8>, p: Seq<u8>, t: Seq<u8>) -> bool {
